@@ -43,6 +43,12 @@ func TypeName(t int) string {
 		return "?"
 	case t < NumConcrete:
 		return fmt.Sprintf("T%d", t)
+	case t == TypeU:
+		return "U"
+	case t == TypeAny:
+		return "Any"
+	case t == TypeI0b:
+		return "I0b"
 	default:
 		return fmt.Sprintf("I%d", t-NumConcrete)
 	}
